@@ -365,7 +365,71 @@ def work(task):
             ('pipe-chain', 't(0) | f(t(1)) | g(t(2))', ('seq', [P(0), P(1), P(2)])),
             ('setitem-nested', 't(0)[t(1)][t(2)] = t(3)', ('seq', [P(0), P(1), P(2), P(3)])),
             ('dict-in-list', '[{t(0): t(1)}, t(2)]', ('seq', [P(0), P(1), P(2)])),
+            # the same subexpression written twice is evaluated twice (no common-subexpression shortcut)
+            ('same-if-cond-branch', 't(0) if t(0) else t(1)', ('if', P(0), P(0), P(1))), ('same-if-cond-else', 't(1) if t(0) else t(0)', ('if', P(0), P(1), P(0))),
+            ('same-if-branches', 't(0) if t(1) else t(0)', ('if', P(1), P(0), P(0))), ('same-and', 't(0) and t(0)', ('bin', 'and', P(0), P(0))),
+            ('same-or', 't(0) or t(0)', ('bin', 'or', P(0), P(0))), ('same-or-and', 't(0) or t(1) and t(0)', ('bin', 'or', P(0), ('bin', 'and', P(1), P(0)))),
+            ('same-plus', 't(0) + t(0)', ('seq', [P(0), P(0)])), ('same-eq', 't(0) == t(0)', ('seq', [P(0), P(0)])), ('same-list', '[t(0), t(0), t(1), t(0)]', ('seq', [P(0), P(0), P(1), P(0)])),
+            ('same-args', 'f(t(0), t(0))', ('seq', [P(0), P(0)])), ('same-dict', '{t(0): t(0), t(1): t(0)}', ('seq', [P(0), P(0), P(1), P(0)])),
+            ('same-index', 't(0)[t(0)]', ('seq', [P(0), P(0)])), ('same-not', 'not t(0) or not t(0)', ('bin', 'or', ('un', 'not', P(0)), ('un', 'not', P(0)))),
+            ('same-statements', 't(0); t(0); t(0)', ('seq', [P(0), P(0), P(0)])), ('same-if-nested', '(t(0) if t(0) else t(1)) if (t(0) if t(0) else t(1)) else t(2)',
+                                                                                     ('if', ('if', P(0), P(0), P(1)), ('if', P(0), P(0), P(1)), P(2))),
+            ('same-pipe', 't(0) | f(t(0)) | f(t(0))', ('seq', [P(0), P(0), P(0)])), ('same-slice', 'x[t(0):t(0)]', ('seq', [P(0), P(0)])),
+            ('same-minus', 't(0) - t(0)', ('seq', [P(0), P(0)])), ('same-in', 't(0) in t(0)', ('seq', [P(0), P(0)])),
         ]
+        # an operation that fails (ill-typed literal operands, undefined names, a full list): nothing to its right is evaluated
+        fail_chains = [
+            ('[1] + 2 + t(0)', []), ('1 + "x" + t(0)', []), ('"a" - 1 - t(0)', []), ('None * 2 * t(0)', []), ('[1] / 2 / t(0)', []), ('(None < 1) == t(0)', []),
+            ('t(0) + ([1] - 2) + t(1)', [0]), ('t(0) + t(1) + ([1] - 2) + t(2) + t(3)', [0, 1]), ('[1] + 2 + t(0) + t(1) + t(2)', []),
+            ('t(0) + [1] + 2 + t(1)', [0]) if False else ('t(0); [1] + 2 + t(1); t(2)', [0]), ('big + big + [t(0)]', []), ('big + [1] + [t(0)] + [t(1)]', []),
+            ('[t(0), [1] - 2, t(1)]', [0]), ('f(t(0), None - 1, t(1))', [0]), ('{"k": [1] - 1, "j": t(0)}', []), ('{"k": t(0), "j": None - 1, "i": t(1)}', [0]),
+            ('nosuchvar + t(0)', []), ('nosuchfn() + t(0)', []), ('t(0) + nosuchvar + t(1)', [0]), ('"s" + t(0) + nosuchvar + t(1)', [0]),
+            ('([1] - 2) if t(0) else t(1)', None), ('t(0) and ([1] - 2) and t(1)', None), ('x[nosuchvar][t(0)]', []), ('x[t(0)][None - 1][t(1)]', [0]),
+            ('1 + 2 + 3 + "x" + t(0) + t(1)', []), ('"x" + 1 + 2 - 3 + t(0)', []), ('t(0) * 2 + "a" * "b" + t(1)', [0]), ('f(1 + "x" + t(0))', []),
+            ('[1, 2] + [3] + 4 + [t(0)]', []), ('"a" + "b" + ("c" - 1) + t(0)', []),
+        ]
+        for text, seq in fail_chains:
+            if seq is None:
+                continue
+            n = (max(seq) + 1) if seq else 0
+            for combo in itertools.product(('truthy', 'falsy', 'raise'), repeat=n):
+                val = dict(enumerate(combo))
+                want = []
+                raised = None
+                for i in seq:
+                    want.append(i)
+                    if val[i] == 'raise':
+                        raised = i
+                        break
+                log = []
+
+                def tt(i, log=log, val=val):
+                    i = int(i)
+                    log.append(i)
+                    if val[i] == 'raise':
+                        raise ProbeRaise(i)
+                    return Univ(1) if val[i] == 'truthy' else Univ(0)
+                names = {'t': tt, 'f': lambda *a: Univ(1), 'x': Univ(1), 'big': [0] * 10000}
+                exc = None
+                try:
+                    parser().eval(text, names, max_ops_evaluated=10000)
+                except ProbeRaise as e:
+                    exc = ('probe', e.args[0])
+                except Exception as e:  # noqa
+                    exc = ('other', type(e).__name__)
+                res.count('evals')
+                res.outcome(f'fail-chain:{text}:{len(log)}')
+                w = {'shape': 'fail-chain', 'program': text, 'valuation': list(combo), 'falsy_kind': 'dec0', 'fail_chain': seq}
+                if log != want:
+                    res.violation(f'order:operand-evaluated-after-a-failed-operation:{text[:30]}', 'an operand to the right of an operation that fails was '
+                                  'evaluated (operands are evaluated left to right, each operation applied as soon as its operands are there)',
+                                  dict(w, expected=want, observed=log))
+                elif raised is not None and exc != ('probe', raised):
+                    res.violation(f'raise:fail-chain:{text[:30]}', 'the exception of a raising operand did not come out unchanged',
+                                  dict(w, expected=f'probe {raised} raises', observed=repr(exc)))
+                elif raised is None and exc is None:
+                    res.count('fail_chain_did_not_fail')
+            res.count('programs')
         api = snapshot.api()
         P = lambda i: ('probe', i)   # noqa
         for fname in sorted(api.FUNCTIONS):
@@ -491,5 +555,27 @@ def main(tier, seed, t0):
 
 
 def replay(w):
-    return f"program {w['program']!r} valuation {w['valuation']}\n expected log {w['expected']}\n observed {w['observed']}\n" \
-           f"(re-run: /venv/bin/python -m mc.run C09)"
+    """Re-executes the program under the recorded valuation with plain calls and compares the probe log with the recorded expectation."""
+    api = snapshot.api()
+    Univ = make_univ()
+    val = dict(enumerate(w['valuation']))
+    log = []
+
+    def t(i):
+        i = int(i)
+        log.append(i)
+        if val.get(i) == 'raise':
+            raise ProbeRaise(i)
+        return Univ(1) if val.get(i) == 'truthy' else falsy_object(w.get('falsy_kind', 'dec0'), Univ)
+    D = api.Decimal
+    names = {'t': t, 'f': lambda *a: Univ(1), 'g': lambda *a: Univ(1), 'h': lambda *a: Univ(1), 'x': Univ(1), 'hd': {'a': D(1)}, 'hl': [D(1), D(2)], 'hs': 'abc',
+             'big': [0] * 10000, 'bigd': {str(i): 0 for i in range(10000)}}
+    try:
+        out = ('value', repr(api.new_parser().eval(w['program'], names, max_ops_evaluated=10000))[:80])
+    except ProbeRaise as e:
+        out = ('probe raised', e.args[0])
+    except Exception as e:  # noqa
+        out = ('other', type(e).__name__)
+    exp = w.get('expected')
+    verdict = 'REPRODUCED' if isinstance(exp, list) and log != exp else ('HOLDS' if isinstance(exp, list) else 'SEE-LOG')
+    return f"{verdict}\n program {w['program']!r} valuation {w['valuation']}\n expected log {exp}\n probe log now {log} -> {out}\n recorded observation {w['observed']}"
